@@ -82,6 +82,14 @@ Print Assumptions issued_not_preexisting.
 Example ex_issue_log : issue_log (history_entries init_store ex_history) = [1; 2; 3; 4].
 Proof. vm_compute. reflexivity. Qed.
 
+(* what these theorems exclude: the rowid allocator of a table WITHOUT AUTOINCREMENT (largest uid + 1) hands
+   the destroyed newest identifier out again, the persisted counter does not *)
+Example rowid_allocator_would_reuse :
+  let st0 := snd (add_objs 0 [TSym; TSym] init_store) in
+  let st1 := remove_obj 2 st0 in
+  uids st0 = [1; 2] /\ uids st1 = [1] /\ next_of_max st1 = 2 /\ next_uid st1 = 3.
+Proof. exact Proofs.rowid_allocator_would_reuse. Qed.
+
 (* ---------- destroyed identifiers stay dead ---------- *)
 
 Theorem destroy_makes_dead : forall ver who st ph tgt g st' ph',
